@@ -5,7 +5,7 @@
    reports exactly the record.  Not proved: removal of the stream from the published list and its effect on
    senders (needs the stream-registry invariant). *)
 From Coq Require Import NArith List Bool.
-Require Import MQ.Arith64 MQ.Types MQ.State MQ.Model MQ.Exec MQ.Reach MQ.Ctl MQ.SigStep MQ.InvSig.
+Require Import MQ.Arith64 MQ.Arith64Facts MQ.Types MQ.State MQ.Model MQ.Exec MQ.Reach MQ.Ctl MQ.SigStep MQ.InvSig MQ.SumCount MQ.RecvDefs MQ.InvReg MQ.InvMisc.
 Open Scope N_scope.
 
 Theorem C11_own_decrement_decides : forall c me A S o,
@@ -40,6 +40,17 @@ Check C11_reports_the_record : forall c me A S o,
   exists r, In (ERet r) (o_ev o) /\
     r = match a_role A, c_fl c with RUni, BCast => RUnit | _, _ => RBool (r_last (a_r A)) end.
 Print Assumptions C11_reports_the_record.
+
+Theorem C11_removal_takes_own_stream_only : forall c fut s x X o,
+  reach c fut s -> lenN (ags s) < B62 -> get (ags s) x = Some X ->
+  micro c x X (sh s) = Some o -> a_pc X = D2 -> cur (sh s) = r_g (a_r X) ->
+  streams (o_s o) = removeN (a_sid X) (streams (sh s)) /\ sumf (wt (a_sid X)) (ags s) = 0.
+Proof. intros c fut s x X o R. apply (removal_takes_own_stream_only c fut). now apply reach_mreach. Qed.
+Check C11_removal_takes_own_stream_only : forall c fut s x X o,
+  reach c fut s -> lenN (ags s) < B62 -> get (ags s) x = Some X ->
+  micro c x X (sh s) = Some o -> a_pc X = D2 -> cur (sh s) = r_g (a_r X) ->
+  streams (o_s o) = removeN (a_sid X) (streams (sh s)) /\ sumf (wt (a_sid X)) (ags s) = 0.
+Print Assumptions C11_removal_takes_own_stream_only.
 
 Example C11_witness :
   let c := mk_cfg BCast 2 WBusy in
